@@ -31,7 +31,11 @@ RULES = [
     ("l", "/l/<string(length=2):x>", "str2"),
     ("h", "/h/<int(fixed_digits=4,signed=True):n>", "sint4"),
     ("u", "/u/<uuid:u>", "uuid"),
+    # a defaults rule next to its variable rule (same endpoint): the value that equals the
+    # default builds the short URL, every other value -- 0 included -- the long one
+    ("d", "/d/<int:n>", "int-default"),
 ]
+DEFAULT_RULES = [("d", "/d", {"n": 1})]
 
 
 class SymUUID:
@@ -72,7 +76,7 @@ def build_map():
     from werkzeug.routing import Map, Rule
 
     install_builder_capture()
-    m = Map([Rule(r, endpoint=ep) for ep, r, kind in RULES])
+    m = Map([Rule(r, endpoint=ep) for ep, r, kind in RULES] + [Rule(r, endpoint=ep, defaults=d) for ep, r, d in DEFAULT_RULES])
     m.update()
     return m
 
@@ -89,7 +93,7 @@ def body_build_match(I, X, ep="s", script="/", external=False, n=2):
         X.assume(pnone_in(x, [0x2F]))
         X.assume(plen(x) > 0)
         values["x"] = x
-    if kind in ("int", "str+int"):
+    if kind in ("int", "str+int", "int-default"):
         values["n"] = X.int("n", 0, 99999)
     if kind == "int3":
         values["n"] = X.int("n", 0, 999)
@@ -206,7 +210,7 @@ def body_match_build(I, X, n=4):
     vals = dict(I.dict_items(args))
     url = I.call(adapter.build, (ep,), {"values": vals})
     kind = [k for e, r, k in RULES if e == ep][0]
-    if kind in ("int", "str+int", "sint", "sint4"):
+    if kind in ("int", "str+int", "sint", "sint4", "int-default"):
         # leading zeros are not canonical for plain ints: the inverse law is stated for the
         # converter's canonical domain
         return True, {"outcome": "non-canonical domain", "ep": ep}
@@ -222,7 +226,7 @@ def obligations(tier, seed):
             for external in (False, True):
                 if quick and script != "/" and external:
                     continue
-                ns = [0] if kind in ("int", "int3", "sint", "sint4", "any", "str2") else (range(1, 4) if quick else range(1, 6))
+                ns = [0] if kind in ("int", "int3", "sint", "sint4", "any", "str2", "int-default") else (range(1, 4) if quick else range(1, 6))
                 if kind == "uuid":
                     ns = [3] if quick else [4, 8]
                 if kind == "path":
